@@ -424,6 +424,10 @@ def gen_scenarios(run, rng):
         steps.append(["table"])
         steps.append(["undoraw", ptree(rng.randint(0, 2), True)])
         scs.append({"kind": "adversarial", "tt": tt, "fmt": fmt, "steps": steps})
+    # the witness of C11_roundtrip_ph_inv_only_refuted, replayed on the implementation and compared with the model
+    wb = ["b", [], None, "", [["i", [], None, "", []]]]
+    scs.append({"kind": "history", "tt": ["p"], "fmt": ["b"], "witness": "C11_roundtrip_ph_inv_only_refuted",
+                "steps": [["get", wb, 1, None], ["get", wb, 0, 0xE007], ["do", ["p", [], None, "", [wb]]], ["table"], ["undo", 0]]})
     return scs, nexh
 
 
